@@ -475,14 +475,17 @@ def calculate_structure_function(phase, nbOfPoint=None, step=None):
 
 def mirror_covariance_matrix(cov_mat):
     """
-    Mirrors a covariance matrix around the axis of the diagonal.
+    Mirrors a covariance matrix around the axis of the diagonal: the lower triangle (including the diagonal)
+    is kept and copied into the upper triangle.
 
     Parameters:
         cov_mat (ndarray): The covariance matrix to mirror
-        n_subaps (ndarray): Number of sub-aperture in each WFS
+
+    Returns:
+        ndarray: The symmetric covariance matrix
     """
 
-    return numpy.bitwise_or(cov_mat.view("int32"), cov_mat.T.view("int32")).view("float32")
+    return numpy.tril(cov_mat) + numpy.tril(cov_mat, -1).T
 
 def create_tomographic_covariance_reconstructor(covariance_matrix, n_onaxis_subaps, svd_conditioning=0):
     """
